@@ -52,6 +52,7 @@ var c10Bad = []string{
 	// cancellation striking inside memoizable calls (frames rec(16)..rec(13) in flight), at 1/4, 1/2 and 3/4 of the evaluation
 	`CANCEL:25:println(rec(16))`, `CANCEL:50:println(rec(16))`, `CANCEL:75:println(rec(16))`,
 	`break`, `if true { continue }`, `func() { break }()`, `for true { func() { continue }() }`,
+	`NESTDEEP`, // (thorough tier only, kept last) recursion wrapped in 6000 nested brackets: the evaluator's nesting bound, not MaxDepth, stops it
 }
 
 const c10MaxDepth = 60
@@ -123,6 +124,9 @@ func c10Step(x *sess, in string) stepRec {
 			rec.out = ""
 		}
 		return rec
+	}
+	if in == "NESTDEEP" {
+		in = "func nd(n) { " + strings.Repeat("[", 6000) + "nd(n + 1)" + strings.Repeat("]", 6000) + " }; nd(0)"
 	}
 	if in == "DEEP" {
 		in = c10Deep()
@@ -239,6 +243,9 @@ func runC10(c *core.Ctx) {
 		return true
 	}
 	nb := len(c10Bad)
+	if c.Quick() {
+		nb-- // NESTDEEP costs ~50 ms per occurrence: thorough tier only
+	}
 	ok := enumTuples(len(c10Good), baseLen, func(base []int) bool {
 		L := len(base)
 		// one failing input at every position, repeated m times
